@@ -95,6 +95,10 @@ def run(ctx: core.Ctx) -> core.Outcome:
         for key, case, detail, replay in lk["viols"]:
             if core.prop_of(key) == ctx.prop:
                 viols.append(core.Violation(key=key, case=case, detail=detail, replay=replay))
+    if design_run["states"] == 0:
+        # no separate design spec for this property: the TLC run is the monitor's, over the recorded executions
+        design_run = {"module": spec + " (monitor; TLC states over the recorded runs)", "states": val["tstats"]["trace_states"],
+                      "transitions": val["tstats"]["trace_transitions"], "depth": 0}
     fams = {}
     for r in corp["runs"]:
         fams[r["family"]] = fams.get(r["family"], 0) + 1
